@@ -4,21 +4,26 @@
 // (ClientRegistry, TunnelRegistry, SessionManager.connMap) with fake transports.
 //
 // case  := (seq|strict) n <N> m <M> cap <C> ops <op>*            one history, one snapshot at the end
-//        | par n <N> m <M> cap <C> ops <op>* (th <op>*)+          prefix, then the th-blocks run concurrently
+//
+//	| par n <N> m <M> cap <C> ops <op>* (th <op>*)+          prefix, then the th-blocks run concurrently
+//
 // op    := A c        AcceptConnection with transport c (ids are never reused: a second A c is skipped)
-//        | H c x t    Handshake packet on c up to and including the auth handler (x=0: handler refuses;
-//                     x>0: handler authenticates as client x = SetClientID+SetAuthenticated), t = c|t
-//                     (connection_type control|tunnel); the real handleHandshake then WAITS at the gate
-//        | Q c t      same, handler answers "challenge sent" (no field writes)
-//        | F c        release the gate of c: response is written, index updated
-//        | HS c x t / QS c t   = H/Q immediately followed by F
-//        | K x c      KickOldControlConnection(x, newConnID=c)      | S    cleanupStaleConnections()
-//        | O c        the control connection of c becomes older than the heartbeat timeout
-//        | B c        Heartbeat packet on c                         | X c  CloseConnection(c)
-//        | R c        RemoveControlConnection(c)                    | U c  clientRegistry.Unregister(c)
-//        | T c        RegisterTunnelConnection for c                | P c  peer breaks transport c (writes fail)
+//
+//	| H c x t    Handshake packet on c up to and including the auth handler (x=0: handler refuses;
+//	             x>0: handler authenticates as client x = SetClientID+SetAuthenticated), t = c|t
+//	             (connection_type control|tunnel); the real handleHandshake then WAITS at the gate
+//	| Q c t      same, handler answers "challenge sent" (no field writes)
+//	| F c        release the gate of c: response is written, index updated
+//	| HS c x t / QS c t   = H/Q immediately followed by F
+//	| K x c      KickOldControlConnection(x, newConnID=c)      | S    cleanupStaleConnections()
+//	| O c        the control connection of c becomes older than the heartbeat timeout
+//	| B c        Heartbeat packet on c                         | X c  CloseConnection(c)
+//	| R c        RemoveControlConnection(c)                    | U c  clientRegistry.Unregister(c)
+//	| T c        RegisterTunnelConnection for c                | P c  peer breaks transport c (writes fail)
+//
 // obs   := cl (<conn> <clientID> <auth> <same> | - - - -){M}  cn (<clientID> <auth> | - -) <inS> <inT> <closed>){N}
-//          la <k> <conn>{k}  ct <Count> <Total> <Control> <Tunnel> <Active>
+//
+//	la <k> <conn>{k}  ct <Count> <Total> <Control> <Tunnel> <Active>
 package main
 
 import (
@@ -88,17 +93,19 @@ type gate struct {
 }
 
 type world struct {
-	n, m, capc int
-	sm         *session.SessionManager
-	cancel     context.CancelFunc
-	tr         []*fconn
-	accepted   []bool
-	mu         sync.Mutex
-	gates      map[string]*gate
-	inflight   []*gate
-	panicMsg   atomic.Value
-	timedOut   atomic.Bool
-	streamRace atomic.Bool // a panic inside StreamProcessor (Close racing WritePacket): not a registry fact
+	n, m, capc  int
+	sm          *session.SessionManager
+	cancel      context.CancelFunc
+	tr          []*fconn
+	accepted    []bool
+	mu          sync.Mutex
+	gates       map[string]*gate
+	inflight    []*gate
+	kicks       map[int]chan struct{} // fine cases: kicked connection -> done channel of the KickOld goroutine
+	kickRelease map[int]chan struct{}
+	panicMsg    atomic.Value
+	timedOut    atomic.Bool
+	streamRace  atomic.Bool // a panic inside StreamProcessor (Close racing WritePacket): not a registry fact
 }
 
 type authH struct{ w *world }
@@ -140,7 +147,7 @@ func newWorld(n, m, capc int) *world {
 		MaxConnections:        0,
 		MaxControlConnections: capc,
 	})
-	w := &world{n: n, m: m, capc: capc, sm: sm, cancel: cancel, gates: map[string]*gate{}}
+	w := &world{n: n, m: m, capc: capc, sm: sm, cancel: cancel, gates: map[string]*gate{}, kicks: map[int]chan struct{}{}, kickRelease: map[int]chan struct{}{}}
 	w.tr = make([]*fconn, n)
 	w.accepted = make([]bool, n)
 	w.inflight = make([]*gate, n)
@@ -161,8 +168,58 @@ func (w *world) close() {
 			}
 		}
 	}
+	for c := range w.kicks {
+		w.kickEnd(c)
+	}
 	w.sm.Close()
 	w.cancel()
+}
+
+// kickBegin runs KickOldControlConnection(x, newConnID) up to the point where KickOldConnection has
+// released the registry lock (hook in front of the kick command; VerifKickWithHook).
+func (w *world) kickBegin(x, newc int) {
+	old := w.sm.GetControlConnectionByClientID(int64(x))
+	c := -1
+	if old != nil {
+		c, _ = strconv.Atoi(connIdx(old.ConnID))
+		if c >= w.n || w.kicks[c] != nil {
+			return
+		}
+	}
+	reached := make(chan struct{})
+	release := make(chan struct{})
+	done := make(chan struct{})
+	go func() {
+		defer close(done)
+		defer w.guard()
+		w.sm.VerifKickWithHook(int64(x), cid(newc), func() {
+			close(reached)
+			<-release
+		})
+	}()
+	select {
+	case <-reached:
+		w.kicks[c] = done
+		w.kickRelease[c] = release
+	case <-done:
+	case <-time.After(10 * time.Second):
+		w.timedOut.Store(true)
+	}
+}
+
+func (w *world) kickEnd(c int) {
+	done := w.kicks[c]
+	if done == nil {
+		return
+	}
+	close(w.kickRelease[c])
+	delete(w.kicks, c)
+	delete(w.kickRelease, c)
+	select {
+	case <-done:
+	case <-time.After(10 * time.Second):
+		w.timedOut.Store(true)
+	}
 }
 
 func (w *world) guard() {
@@ -191,8 +248,8 @@ func (o op) String() string {
 		return fmt.Sprintf("%s %d %d %s", o.k, o.a, o.b, o.t)
 	case "Q", "QS":
 		return fmt.Sprintf("%s %d %s", o.k, o.a, o.t)
-	case "K":
-		return fmt.Sprintf("K %d %d", o.a, o.b)
+	case "K", "Kb":
+		return fmt.Sprintf("%s %d %d", o.k, o.a, o.b)
 	}
 	return fmt.Sprintf("%s %d", o.k, o.a)
 }
@@ -302,6 +359,12 @@ func (w *world) exec(o op, gated bool) {
 		w.handshakeFinish(c)
 	case "K":
 		w.sm.KickOldControlConnection(int64(o.a), cid(o.b))
+	case "Kb":
+		w.kickBegin(o.a, o.b)
+	case "Ke":
+		if c < w.n {
+			w.kickEnd(c)
+		}
 	case "S":
 		w.sm.VerifCleanupStale()
 	case "O":
@@ -430,10 +493,10 @@ func parseOps(toks []string) ([]op, []string) {
 		case "Q", "QS":
 			ops = append(ops, op{k: k, a: atoi(toks[1]), t: toks[2]})
 			toks = toks[3:]
-		case "K":
+		case "K", "Kb":
 			ops = append(ops, op{k: k, a: atoi(toks[1]), b: atoi(toks[2])})
 			toks = toks[3:]
-		case "A", "F", "O", "B", "X", "R", "U", "T", "P":
+		case "Ke", "A", "F", "O", "B", "X", "R", "U", "T", "P":
 			ops = append(ops, op{k: k, a: atoi(toks[1])})
 			toks = toks[2:]
 		default:
@@ -476,7 +539,7 @@ func inUniverse(tc *tcase) bool {
 		for _, o := range ops {
 			switch o.k {
 			case "S":
-			case "K":
+			case "K", "Kb":
 				if o.a < 1 || o.a > tc.m { // the new connection id of a kick may be unknown (== n)
 					ok = false
 				}
@@ -625,11 +688,37 @@ func emit(out *vc.Out, j *job) {
 			out.Count("obs_" + f[0])
 		}
 	}
+	if j.key == "" && j.tc.kind == "par" && closedAnswer(j.tc, j.obs) {
+		// signature of the recorded finding evict-close-window (see KNOWN_FINDINGS): some lookup by client id
+		// answered a connection whose transport the server has closed
+		j.key = "evict-close-window"
+	}
 	cs := j.caseStr
 	if j.key != "" {
 		cs = "K:" + j.key + " " + cs
 	}
 	out.Case(cs, j.obs, key)
+}
+
+// closedAnswer: does some `cl` answer name a connection whose `closed` flag is set?
+func closedAnswer(tc *tcase, obs string) bool {
+	f := strings.Fields(obs)
+	if len(f) < 1+4*tc.m+1+5*tc.n || f[0] != "cl" || f[1+4*tc.m] != "cn" {
+		return false
+	}
+	for x := 0; x < tc.m; x++ {
+		if f[1+4*x] == "-" {
+			continue
+		}
+		c, err := strconv.Atoi(f[1+4*x])
+		if err != nil || c >= tc.n {
+			continue
+		}
+		if f[1+4*tc.m+1+5*c+4] == "1" {
+			return true
+		}
+	}
+	return false
 }
 
 func mkJob(tc *tcase, key string) *job {
@@ -666,7 +755,7 @@ func canonical(seq []op, n int) bool {
 		c, x := -1, -1
 		switch o.k {
 		case "S":
-		case "K":
+		case "K", "Kb":
 			x = o.a
 			if o.b < n {
 				c = o.b
@@ -829,7 +918,8 @@ func genPar(jobs *[]*job, r *vc.Rand, count int) {
 					// handshakes of connection c only in thread c % nth
 					threads[c%nth] = append(threads[c%nth], op{k: "HS", a: c, b: x, t: vc.Pick(r, []string{"c", "c", "c", "t"})})
 				case p < 55:
-					threads[t] = append(threads[t], op{k: "X", a: c})
+					// teardown is what the connection's own read loop does when it ends
+					threads[c%nth] = append(threads[c%nth], op{k: "X", a: c})
 				case p < 65:
 					threads[t] = append(threads[t], op{k: "K", a: x, b: r.Intn(n + 1)})
 				case p < 75:
@@ -858,6 +948,29 @@ func genWindow(jobs *[]*job) {
 			panic(err)
 		}
 		*jobs = append(*jobs, mkJob(tc, "reauth-window"))
+	}
+	// the other recorded window: KickOldConnection closes the stream after it released the lock; a
+	// handshake packet of the kicked connection handled in between re-registers and re-indexes it
+	for _, s := range []string{
+		"fine n 2 m 1 cap 0 ops A 0 HS 0 1 c Kb 1 1 HS 0 1 c Ke 0",
+		"fine n 3 m 2 cap 0 ops A 0 A 1 HS 0 1 c HS 1 2 c Kb 2 2 HS 1 2 c Ke 1",
+	} {
+		tc, err := parseCase(s)
+		if err != nil {
+			panic(err)
+		}
+		*jobs = append(*jobs, mkJob(tc, "evict-close-window"))
+	}
+	// the same steps where nothing slips into the window: no finding
+	for _, s := range []string{
+		"fine n 2 m 1 cap 0 ops A 0 HS 0 1 c Kb 1 1 Ke 0 HS 0 1 c",
+		"fine n 2 m 2 cap 0 ops A 0 A 1 HS 0 1 c Kb 1 1 HS 1 2 c Ke 0",
+	} {
+		tc, err := parseCase(s)
+		if err != nil {
+			panic(err)
+		}
+		*jobs = append(*jobs, mkJob(tc, ""))
 	}
 }
 
